@@ -57,7 +57,7 @@ func run(r *core.Run) {
 	}
 	r.Section(fmt.Sprintf("pool=small(%d decls) k=3", len(small)))
 	enumerate(r, small, "small", 3)
-	for _, th := range []string{"lists", "disjunctions", "bounds", "closedness"} {
+	for _, th := range []string{"lists", "disjunctions", "bounds", "closedness", "comprehensions"} {
 		tp := gen.Theme(th)
 		r.Section(fmt.Sprintf("theme=%s(%d decls) k=3", th, len(tp)))
 		enumerate(r, tp, "theme:"+th, 3)
